@@ -5,7 +5,12 @@
 (*   tabC    TetrahedronMethod(rec. lattice, mesh).tetrahedra  (compiled      *)
 (*           table, origin first in every row)                                *)
 (*   tabPy   TetrahedronMethod(..., lang="Py"): table and central indices     *)
-(*   metric  integer Gram matrix of the microzone lattice (exact)             *)
+(*   metric  integer Gram matrix of the microzone lattice (exact); metric0 of   *)
+(*           the undivided reciprocal cell; differs = no diagonal is shortest   *)
+(*           for both                                                           *)
+(*   tabT, tabP, dosCls   relative grid addresses handed to the kernel by        *)
+(*           TotalDos / ProjectedDos (recorded at run_tetrahedron_method_dos)    *)
+(*           and their results [I][j][m] (m = projections, last = total)         *)
 (*   tvC/tvPy  get_tetrahedra_frequencies(lang="C" / "Py") per irreducible    *)
 (*           point: [r][b][t][k]                                              *)
 (*   wC/wPy  TetrahedronMesh(lang="C"/"Py") integration weights x Ngp:        *)
@@ -77,6 +82,28 @@ ImplOrderIndependentMeshC ==
   mpc = "table" => ReqSameAsAscending(cs, mev.asc, WeightsByPoint(mev.wC), WeightsByPoint(mev.wCasc))
 ImplOrderIndependentMeshPy ==
   mpc = "table" => ReqSameAsAscending(cs, mev.asc, WeightsByPoint(mev.wPy), WeightsByPoint(mev.wPyasc))
+
+(* WHICH DIVISION.  The method cuts the MICROZONE - the cell spanned by the     *)
+(* reciprocal basis vectors divided by the mesh numbers, b_i / n_i - along its  *)
+(* shortest main diagonal (mev.metric is the exact integer Gram matrix of the   *)
+(* microzone, mev.metric0 that of the undivided reciprocal cell).  Every table  *)
+(* handed to the kernel - by TetrahedronMethod (tabC, tabPy), by TotalDos       *)
+(* (tabT) and by ProjectedDos (tabP) - must be the table of a shortest          *)
+(* diagonal of the microzone; total and projections must use the same one.      *)
+TableOfShortest(tab) == \E d \in 0..3 : TableContract(tab, d) /\ ShortestDiagonal(mev.metric, d)
+ImplShortestDiagonalC == mpc = "table" => TableOfShortest(mev.tabC)
+ImplShortestDiagonalPy == mpc = "table" => TableOfShortest(mev.tabPy)
+ImplShortestDiagonalTotalDos == mpc = "table" => TableOfShortest(mev.tabT)
+ImplShortestDiagonalProjectedDos == mpc = "table" => TableOfShortest(mev.tabP)
+ImplSameDivision == mpc = "table" => DiagOfTable(mev.tabT) = DiagOfTable(mev.tabP)
+(* the harness's flag "scaling by the mesh changes the shortest diagonal" is    *)
+(* re-derived here exactly (the harness requires such events to be present)     *)
+ConformsDiffersFlag ==
+  mpc = "table" => (mev.differs <=> ~(\E d \in 0..3 : ShortestDiagonal(mev.metric, d) /\ ShortestDiagonal(mev.metric0, d)))
+(* TotalDos / ProjectedDos results: definition, additivity, non-negativity *)
+ImplDosClasses == MDone => ReqDos(cs, mev.dosCls, dw)
+ImplDosClassesAdditive == MDone => ReqAdditive(cs, mev.dosCls)
+ImplDosClassesNonNegative == MDone => ReqNonNegative(cs, mev.dosCls)
 
 (* conformance with the step machine *)
 ConformsShortestDiagonal == mpc = "table" => ShortestDiagonal(mev.metric, cs.diag)
